@@ -20,7 +20,7 @@ const wgtFrame = "pubsub/sync.WaitGroupTimeout"
 
 var wo = vlib.WaitOpts{Watchdog: 40 * time.Second, NoTimerCheck: []string{wgtFrame}}
 
-const forcedCases = 48
+const forcedCases = 96
 
 func init() {
 	vlib.Register(&vlib.Prop{
@@ -28,7 +28,7 @@ func init() {
 		Level: "exploration",
 		Cases: func(tier string) int { return forcedCases + vlib.TierN(tier, 600, 320000) },
 		Rule: "forced part: the RunHandlers goroutine is parked right after a handler's Started() channel closed; the goroutine that waited on Started() then calls Stop() and Stopped() (must not panic, Stopped() must be non-nil) and, after the release, Stopped() must close; " +
-			"x {handler added before Run, added after Run and started by RunHandlers} x {1..3 handlers} x {scripted, GoChannel subscriber} x repeats. " +
+			"while still parked, a second Run is issued (must be refused with an error); optionally the Run context is cancelled during the start-up (Run must still return nil); x {handler added before Run, added after Run and started by RunHandlers} x {1..3 handlers} x {scripted, GoChannel subscriber} x repeats. " +
 			"random part: lifecycle programs over {AddHandler before/after Run, Run, RunHandlers x1..4 sequentially or concurrently, wait Started, emit a message the instant Running() closes, Stop a subset, emit again, end by stopping all handlers / cancelling the Run context / Close, second Run} with 1..5 handlers, " +
 			"scripted subscribers that count Subscribe calls or one GoChannel, private or shared publishers, yield injection at the router hook points. " +
 			"Oracle: when Running() is observed closed every handler added before Run holds a subscription and a message emitted at that instant is handled; exactly one Subscribe per handler whatever the number of RunHandlers calls; after Started(): Stop() does not panic, Stopped() is non-nil and closes; " +
@@ -56,6 +56,7 @@ type hrec struct {
 	pub     *vlib.Pub
 	h       *message.Handler
 	handled atomic.Int32
+	gate    atomic.Pointer[chan struct{}]
 	late    bool
 	stopped bool
 	shared  int
@@ -74,7 +75,9 @@ func forced(e *vlib.Env) vlib.Result {
 	nh := i%3 + 1
 	i /= 3
 	useGC := i%2 == 1
-	spec := fmt.Sprintf("handlerAddedAfterRun=%v handlers=%d gochannel=%v", late, nh, useGC)
+	i /= 2
+	cancelDuringStartup := i%2 == 1
+	spec := fmt.Sprintf("handlerAddedAfterRun=%v handlers=%d gochannel=%v cancelRunContextDuringStartup=%v", late, nh, useGC, cancelDuringStartup)
 	res := vlib.Result{Class: fmt.Sprintf("forced/late=%v/gochannel=%v", late, useGC), Spec: spec}
 	id := e.ID()
 	r, _ := message.NewRouter(message.RouterConfig{CloseTimeout: time.Hour}, watermill.NopLogger{})
@@ -156,6 +159,9 @@ func forced(e *vlib.Env) vlib.Result {
 		// it returns at once (refused) or blocks behind the parked start-up
 		vlib.WaitUntil(func() bool { return len(run2Ch) > 0 }, wo)
 	}
+	if cancelDuringStartup && reached {
+		cancel() // the Run context ends while RunHandlers is in the middle of starting the handlers
+	}
 	park.Release()
 	if reached {
 		var r2 run2
@@ -201,6 +207,15 @@ func forced(e *vlib.Env) vlib.Result {
 		}
 	}
 	vlib.WaitClosed(rhDone, wo)
+	if cancelDuringStartup && reached && !res.Failed() {
+		// "when ... the Run context is cancelled the router closes itself and Run returns nil" - also when that happens during start-up
+		if oc, d := vlib.WaitClosed(runDone, wo); oc == vlib.Stuck {
+			res.Fail("run-never-returned", "the Run context was cancelled while handlers were being started and Run never returned (quiescent): %s", spec)
+			res.Witness = d
+		} else if oc == vlib.Done && runErr != nil {
+			res.Fail("run-error", "the Run context was cancelled while handlers were being started and Run returned %v instead of nil: %s", runErr, spec)
+		}
+	}
 	// end: close the router, Run must return nil
 	cd := make(chan struct{})
 	go func() { r.Close(); close(cd) }()
@@ -219,7 +234,7 @@ func forced(e *vlib.Env) vlib.Result {
 	res.Hooks = ctl.Counts()
 	res.Events = 6
 	res.NonTrivial = reached
-	res.Sig = vlib.Sig(spec, e.Idx/12, ctl.Fingerprint())
+	res.Sig = vlib.Sig(spec, e.Idx/24, ctl.Fingerprint())
 	res.Count("forced_reached", b2i(reached))
 	if !reached && res.Verdict == "" {
 		res.Verdict = vlib.Unreached
@@ -281,6 +296,9 @@ func random(e *vlib.Env) vlib.Result {
 		}
 		h.h = r.AddHandler(h.name, h.topic, sub, h.topic+"/out", h.pub, func(m *message.Message) ([]*message.Message, error) {
 			h.handled.Add(1)
+			if g := h.gate.Load(); g != nil {
+				<-*g // the handler function is busy until the harness opens the gate
+			}
 			return []*message.Message{message.NewMessage(m.UUID+"/o", nil)}, nil
 		})
 		hrs[k] = h
@@ -290,6 +308,33 @@ func random(e *vlib.Env) vlib.Result {
 	}
 	ctx, cancel := context.WithCancel(context.Background())
 	defer cancel()
+	if rnd.Chance(0.08) {
+		// the Run context is already cancelled when Run is called: the router starts, finds nothing to do, closes itself, Run returns nil
+		res.Class = "random/cancelled-before-run"
+		cancel()
+		done := make(chan struct{})
+		var err error
+		go func() { defer close(done); err = r.Run(ctx) }()
+		if oc, d := vlib.WaitClosed(done, wo); oc == vlib.Stuck {
+			res.Fail("run-never-returned", "Run was called with an already cancelled context and never returned (quiescent): %s", spec)
+			res.Witness = d
+			cl := make(chan struct{})
+			go func() { r.Close(); close(cl) }()
+			vlib.WaitClosed(cl, wo)
+		} else if oc == vlib.Done && err != nil {
+			res.Fail("run-error", "Run was called with an already cancelled context and returned %v instead of nil: %s", err, spec)
+		}
+		for _, h := range hrs {
+			if h != nil {
+				h.sub.Close()
+			}
+		}
+		res.Events = 2
+		res.NonTrivial = true
+		res.Sig = vlib.Sig("cancelled-before-run", spec)
+		res.Sample = map[string]any{"program": "cancel the context, then Run: " + spec}
+		return res
+	}
 	runDone := make(chan struct{})
 	var runErr error
 	go func() { defer close(runDone); runErr = r.Run(ctx) }()
@@ -390,6 +435,37 @@ func random(e *vlib.Env) vlib.Result {
 	// Stop a subset right away; the others keep working
 	perm := rnd.Perm(nh)
 	stoppedPubs := map[*vlib.Pub]bool{}
+	// optionally another handler's function is busy (blocked) while handlers are stopped: Stop must still end the
+	// stopped handler, and the remaining ones keep processing
+	var busy *hrec
+	var busyGate chan struct{}
+	if nstop > 0 && nstop < nh && !useGC && !res.Failed() && rnd.Chance(0.5) {
+		cand := hrs[perm[nstop]]
+		sharesWithStopped := false
+		for _, k := range perm[:nstop] {
+			if hrs[k].pub == cand.pub {
+				sharesWithStopped = true
+			}
+		}
+		if !sharesWithStopped {
+			busy = cand
+			busyGate = make(chan struct{})
+			busy.gate.Store(&busyGate)
+			before := busy.handled.Load()
+			if emit(busy, "busy") {
+				vlib.WaitUntil(func() bool { return busy.handled.Load() > before }, wo)
+			} else {
+				busy.gate.Store(nil)
+				busy = nil
+			}
+		}
+	}
+	defer func() {
+		if busy != nil {
+			busy.gate.Store(nil)
+			close(busyGate)
+		}
+	}()
 	for _, k := range perm[:nstop] {
 		if res.Failed() {
 			break
@@ -414,7 +490,7 @@ func random(e *vlib.Env) vlib.Result {
 		stoppedPubs[h.pub] = true
 	}
 	for _, h := range hrs {
-		if res.Failed() || h.stopped || stoppedPubs[h.pub] {
+		if res.Failed() || h.stopped || stoppedPubs[h.pub] || h == busy {
 			continue
 		}
 		want := h.handled.Load() + 1
@@ -423,6 +499,12 @@ func random(e *vlib.Env) vlib.Result {
 		} else {
 			res.Fail("others-broken-after-stop", "handler %s lost its subscription after another handler was stopped: %s", h.name, spec)
 		}
+	}
+	if busy != nil {
+		res.Count("stopped_while_another_handler_was_busy", 1)
+		busy.gate.Store(nil)
+		close(busyGate)
+		busy = nil
 	}
 	// ending
 	if !res.Failed() {
